@@ -279,3 +279,58 @@ Definition json_v_byte (v : N) : N :=
     ((v mod two64 + 2 * two64 - 35 + (two64 - (2 * c) mod two64)) mod two64) mod 256
   else ((v mod two64 + two64 - 27) mod two64) mod 256.
 Definition json_accepts (t : tx) : bool := validate_sig (json_v_byte (t_v t)) (t_r t) (t_s t) false.
+
+(* ---- Transaction.UnmarshalJSON (gen_tx_json.go + hexutil + common.Address/Hash) at the member level ----
+   A member as encoding/json hands it to the field decoders: absent or null (the
+   pointer stays nil), a JSON string (its raw content), or a value of another type. *)
+Inductive jfield := JAbsent | JS (s : bytes) | JBad.
+
+Fixpoint hex_pairs (l : bytes) : option bytes :=
+  match l with
+  | [] => Some []
+  | a :: t =>
+    match t with
+    | [] => None
+    | b :: t' =>
+      match nibble a, nibble b, hex_pairs t' with
+      | Some x, Some y, Some r => Some (n2b (16 * x + y) :: r)
+      | _, _, _ => None
+      end
+    end
+  end.
+(* hexutil.Bytes.UnmarshalText: "" is accepted (empty), otherwise 0x/0X prefix and an even number of hex digits *)
+Definition dec_hexbytes (s : bytes) : option bytes :=
+  match s with
+  | [] => Some []
+  | c0 :: c1 :: raw =>
+      if (b2n c0 =? 48) && ((b2n c1 =? 120) || (b2n c1 =? 88)) then hex_pairs raw else None
+  | _ => None
+  end.
+(* hexutil.UnmarshalFixedText for common.Address (20) / common.Hash (32) *)
+Definition dec_fixed (w : N) (s : bytes) : option bytes :=
+  match dec_hexbytes s with Some b => if lenN b =? w then Some b else None | None => None end.
+
+Record tx_json := mkTxJson {
+  j_nonce : jfield; j_price : jfield; j_gas : jfield; j_to : jfield; j_value : jfield; j_input : jfield;
+  j_v : jfield; j_r : jfield; j_s : jfield; j_hash : jfield }.
+
+(* gencodec:"required" quantity member *)
+Definition req_quantity (maxlen : N) (f : jfield) : option N :=
+  match f with JS s => dec_quantity maxlen s | _ => None end.
+
+(* txdata.UnmarshalJSON then the signature check of Transaction.UnmarshalJSON.  The
+   "hash" member must be well-formed when present; its VALUE is not used: the
+   decoded transaction's hash is that of its own RLP encoding (tx_hash). *)
+Definition tx_of_json (j : tx_json) : option tx :=
+  match req_quantity 16 (j_nonce j), req_quantity 64 (j_price j), req_quantity 16 (j_gas j),
+        req_quantity 64 (j_value j), req_quantity 64 (j_v j), req_quantity 64 (j_r j), req_quantity 64 (j_s j) with
+  | Some n, Some p, Some g, Some v, Some sv, Some sr, Some ss =>
+    match (match j_to j with JAbsent => Some None | JS s => option_map Some (dec_fixed 20 s) | JBad => None end),
+          (match j_input j with JS s => dec_hexbytes s | _ => None end),
+          (match j_hash j with JAbsent => true | JS s => (match dec_fixed 32 s with Some _ => true | None => false end) | JBad => false end) with
+    | Some to, Some d, true =>
+        let t := mkTx n p g to v d sv sr ss in if json_accepts t then Some t else None
+    | _, _, _ => None
+    end
+  | _, _, _, _, _, _, _ => None
+  end.
